@@ -18,6 +18,8 @@
 (*   "otherkey"   some_other_key: 1                                        *)
 (*   "garbage"    text that is not a YAML mapping entry                    *)
 (*   "conflict"   <<<<<<< HEAD   (a merge conflict marker)                 *)
+(*   "latin1cmt"  a comment line with a Latin-1 byte (the file is not UTF-8)  *)
+(*   "binary"     bytes that are no text at all                            *)
 (*   "longtail"   a long comment line (makes the file longer than anything *)
 (*                Breadlog writes: an in-place rewrite would leave a tail) *)
 (*                                                                         *)
@@ -31,7 +33,7 @@ CONSTANTS LineKinds, MaxLines, Values, Endings, Finals
 
 ValueLines == {"value", "valuecmt", "valuesp"}
 Harmless   == {"header", "blank", "longtail"}
-Breaking   == {"garbage", "conflict"}
+Breaking   == {"garbage", "conflict", "latin1cmt", "binary"}   \* the last two are not valid UTF-8: not parsable either
 
 (* classes of N: "small" (7), "max" (4294967295), "over" (4294967296), "neg" (-7), "word" (abc), "empty" (nothing after
    the colon), "quoted" ("7"), "plus" (+7), "hex" (0x7), "float" (7.5), "zero" (0), "lead0" (007) *)
